@@ -110,6 +110,19 @@ type c08Dec struct {
 	Delivery hx.Delivery `json:"delivery"`
 	// Plan: sizes of the buffers handed to Read (cycled); nil = io.ReadAll
 	Plan []int `json:"plan,omitempty"`
+	// EndErr: how the source reports its end: "" io.EOF, "wrapped" an error that wraps io.EOF (a closed connection)
+	EndErr string `json:"endErr,omitempty"`
+}
+
+// wrappedEOFReader turns the final io.EOF into an error that wraps it.
+type wrappedEOFReader struct{ r io.Reader }
+
+func (w wrappedEOFReader) Read(p []byte) (int, error) {
+	n, err := w.r.Read(p)
+	if err == io.EOF {
+		err = fmt.Errorf("connection closed by peer: %w", io.EOF)
+	}
+	return n, err
 }
 
 // normaliseArmor applies only the documented tolerances.
@@ -138,6 +151,9 @@ func normaliseArmor(text string) string {
 
 func c08CheckDecode(c c08Dec, st *stats.Run, count bool) error {
 	src, _ := hx.NewReader(c.Text, c.Delivery)
+	if c.EndErr == "wrapped" {
+		src = wrappedEOFReader{src}
+	}
 	r := armor.NewReader(src)
 	var got []byte
 	var err error
@@ -356,6 +372,50 @@ func c08Mutate(t *rapid.T, text []byte) []byte {
 	return join()
 }
 
+// a destination that refuses one write (taking nothing) and works again: the
+// caller offers the unaccepted bytes once more. If every byte was finally
+// accepted and Close succeeds, the text is the armor of those bytes.
+type c08Retry struct {
+	Len    int   `json:"len"`
+	Segs   []int `json:"segs"`
+	FailAt int   `json:"failAt"` // index of the destination write that fails once
+}
+
+func c08CheckRetry(c c08Retry, st *stats.Run) error {
+	data := hx.PRG(uint64(c.Len)+3, c.Len)
+	fw := &hx.FaultWriter{FailAt: c.FailAt, ByteLimit: -1, Once: true}
+	w := armor.NewWriter(fw)
+	pos, ok := 0, true
+	for _, sg := range append(append([]int{}, c.Segs...), c.Len) {
+		if pos+sg > c.Len {
+			sg = c.Len - pos
+		}
+		seg := data[pos : pos+sg]
+		for try := 0; try < 3 && len(seg) > 0; try++ {
+			n, err := w.Write(seg)
+			seg = seg[n:]
+			if err == nil {
+				break
+			}
+		}
+		if len(seg) > 0 {
+			ok = false
+			break
+		}
+		pos += sg
+	}
+	cerr := w.Close()
+	st.Case(fw.Failed > 0, stats.HashJSON(c), "enc:retry-after-refused-write", fmt.Sprintf("enc:retry-succeeded=%v", ok && cerr == nil))
+	if !ok || cerr != nil || pos != c.Len {
+		return nil // the writer gave up, and said so
+	}
+	got, derr := refage.Dearmor(fw.Buf.String())
+	if derr != nil || !bytes.Equal(got, data) {
+		return pbt.Failf("C08/encode-roundtrip", "destination write %d was refused once (nothing taken), the caller offered the bytes again, every Write and Close then succeeded, but the text is not the armor of the %d bytes written (%v): %q", c.FailAt, c.Len, derr, trunc(fw.Buf.Bytes()))
+	}
+	return nil
+}
+
 // through the age command: armored input is accepted only in canonical form
 type c08CLI struct {
 	PlainLen int    `json:"plainLen"`
@@ -433,6 +493,18 @@ func TestC08(t *testing.T) {
 		}
 		s.St.Exhaust("armoring every length 0..200 x 9 write segmentations, and Close without Write", int64(n+1))
 	}, enc)
+	pbt.Each(s, "encode", func(yield func(c08Retry)) {
+		n := 0
+		for _, l := range []int{0, 1, 48, 100, 200} {
+			for _, segs := range [][]int{nil, {1}, {48, 48}, {10, 10, 10}} {
+				for fa := 0; fa < 6; fa++ {
+					yield(c08Retry{Len: l, Segs: segs, FailAt: fa})
+					n++
+				}
+			}
+		}
+		s.St.Exhaust("armoring with a destination that refuses one of its first six writes once and the caller retrying: 5 lengths x 4 segmentations", int64(n))
+	}, func(c c08Retry) error { return c08CheckRetry(c, s.St) })
 	pbt.Rapid(s, "encode", s.N(10000, 60000), func(t *rapid.T) c08Enc {
 		l := rapid.SampledFrom([]int{0, 1, 2, 3, 47, 48, 49, 95, 96, 97, 4095, 4096, 4097}).Draw(t, "len")
 		if rapid.Bool().Draw(t, "anyLen") {
@@ -483,6 +555,9 @@ func TestC08(t *testing.T) {
 			text = c08Mutate(t, text)
 		}
 		c := c08Dec{Text: text, Delivery: genDelivery(t)}
+		if rapid.IntRange(0, 3).Draw(t, "endErr") == 0 {
+			c.EndErr = "wrapped"
+		}
 		if rapid.Bool().Draw(t, "readPlan") {
 			c.Plan = rapid.SampledFrom([][]int{{1}, {16}, {40}, {47}, {48}, {49}, {100}, {47, 1000}, {0, 3}, {-1}}).Draw(t, "plan")
 		}
